@@ -411,8 +411,8 @@ pub fn property() -> Property {
             Tier::Quick => vec![
                 Step::Enumerate { kind: "ext_short", count: 1 + 256 + 65536 },
                 Step::Enumerate { kind: "ext_first_byte", count: 256 * 12 * 8 },
-                Step::Pbt { kind: "replies", cases: 20_000, max_len: 120 },
-                Step::Pbt { kind: "scanner", cases: 5_000, max_len: 60 },
+                Step::Pbt { kind: "replies", cases: 100_000, max_len: 120 },
+                Step::Pbt { kind: "scanner", cases: 30_000, max_len: 60 },
             ],
             Tier::Thorough => vec![
                 Step::Enumerate { kind: "ext_short", count: 1 + 256 + 65536 },
